@@ -236,11 +236,13 @@ theorem mem_storeAdd (st : List Id) (id x : Id) : x ∈ storeAdd st id ↔ x ∈
       · subst h; exact this
   · simp
 
-/-- whether an op removes `id` from processed_messages -/
-def cleansUp (op : Op) (id : Id) : Bool :=
+/-- the op does not delete the processed record of `id`: a purge that does not name it, or a retention sweep
+    at a moment when the record is not older than the sweep's max age -/
+def spares (s : State) (op : Op) (id : Id) : Bool :=
   match op with
-  | .cleanup ids => ids.contains id
-  | _ => false
+  | .cleanup ids => !ids.contains id
+  | .sweep maxAge => !expired s maxAge id
+  | _ => true
 
 /-- "`id` is processed and the duplicate check will find it": the id is in processed_messages, the filter is
     well-formed, and — only relevant when negatives are trusted — an authoritative filter tests positive for it -/
@@ -269,9 +271,11 @@ theorem handleMsg_run (pos : Id → List Nat) (c : Cfg) (s : State) (i : Id) (o 
     handleMsg pos c s i o =
       (match o with
        | .raiseBefore => ({ s with bloom := onRaise pos c (afterRotationCheck pos c s) i, runs := i :: s.runs }, Obs.ran)
-       | .commitRaise => ({ bloom := onRaise pos c (afterRotationCheck pos c s) i, store := storeAdd s.store i, runs := i :: s.runs }, Obs.ran)
+       | .commitRaise => ({ s with bloom := onRaise pos c (afterRotationCheck pos c s) i, store := storeAdd s.store i,
+                                   runs := i :: s.runs, stamp := stampAdd s i }, Obs.ran)
        | .commitReturn | .plainReturn =>
-         ({ bloom := (afterRotationCheck pos c s).markSeen pos i, store := storeAdd s.store i, runs := i :: s.runs }, Obs.ran)) := by
+         ({ s with bloom := (afterRotationCheck pos c s).markSeen pos i, store := storeAdd s.store i,
+                   runs := i :: s.runs, stamp := stampAdd s i }, Obs.ran)) := by
   simp only [handleMsg, hk, afterRotationCheck]
   cases o <;> rfl
 
@@ -377,6 +381,8 @@ theorem wf_step (pos : Id → List Nat) (c : Cfg) (hsz : 0 < c.size) (s : State)
   | rotate => exact wf_rotate pos c.cap s.store s.bloom hw
   | peerMarks i => exact hw
   | cleanup ids => exact hw
+  | tick n => exact hw
+  | sweep h => exact hw
 
 theorem wf_run (pos : Id → List Nat) (c : Cfg) (hsz : 0 < c.size) (s : State) (ops : List Op) (hw : WF s.bloom) :
     WF (run pos c s ops).bloom := by
@@ -417,9 +423,9 @@ theorem handleMsg_keeps (pos : Id → List Nat) (c : Cfg) (s : State) (i : Id) (
         fun ht ha => mark_mono pos _ i id (hseen ht ha)⟩
 
 /-- one step on a state where `id` is committed: the handler is not dispatched for `id`, and `id` stays committed
-    (every op, any other message, any outcome; only a retention cleanup of `id` itself is excluded) -/
+    (every op, any other message, any outcome; only deleting the record of `id` itself is excluded) -/
 theorem step_keeps (pos : Id → List Nat) (c : Cfg) (hsz : 0 < c.size) (s : State) (op : Op) (id : Id)
-    (h : Committed pos c s id) (hc : cleansUp op id = false) :
+    (h : Committed pos c s id) (hc : spares s op id = true) :
     runCount (step pos c s op).1 id = runCount s id ∧ Committed pos c (step pos c s op).1 id := by
   have hw' := wf_step pos c hsz s op h.2.1
   cases op with
@@ -441,9 +447,29 @@ theorem step_keeps (pos : Id → List Nat) (c : Cfg) (hsz : 0 < c.size) (s : Sta
     exact ⟨rfl, (mem_storeAdd _ _ _).mpr (Or.inl hm), hw, hs⟩
   | cleanup ids =>
     obtain ⟨hm, hw, hs⟩ := h
-    have : ids.contains id = false := by simpa [cleansUp] using hc
+    have : ids.contains id = false := by simpa [spares] using hc
     refine ⟨rfl, ?_, hw, hs⟩
     simp only [step, List.mem_filter]
     exact ⟨hm, by simpa using this⟩
+  | tick n =>
+    obtain ⟨hm, hw, hs⟩ := h
+    exact ⟨rfl, hm, hw, hs⟩
+  | sweep maxAge =>
+    obtain ⟨hm, hw, hs⟩ := h
+    have : expired s maxAge id = false := by simpa [spares] using hc
+    refine ⟨rfl, ?_, hw, hs⟩
+    simp only [step, List.mem_filter]
+    exact ⟨hm, by simp [this]⟩
+
+/-- "the record of `id` survives the whole history": evaluated op by op in the state each op meets -/
+def Spared (pos : Id → List Nat) (c : Cfg) (s : State) (id : Id) : List Op → Prop
+  | [] => True
+  | op :: ops => spares s op id = true ∧ Spared pos c (step pos c s op).1 id ops
+
+instance decSpared (pos : Id → List Nat) (c : Cfg) : (s : State) → (id : Id) → (ops : List Op) → Decidable (Spared pos c s id ops)
+  | _, _, [] => isTrue trivial
+  | s, id, op :: ops =>
+    have := decSpared pos c (step pos c s op).1 id ops
+    inferInstanceAs (Decidable (spares s op id = true ∧ Spared pos c (step pos c s op).1 id ops))
 
 end Stab.Props.C09
